@@ -33,6 +33,9 @@ pub struct QueryEngine {
     registered_paths: Arc<RwLock<HashSet<String>>>,
     /// Paths currently backing the logical "metrics" table
     registered_metrics_paths: Arc<RwLock<BTreeSet<String>>>,
+    /// Whether `metrics` has ever been registered over chunk files (until then the empty
+    /// placeholder carries the default schema, not necessarily the stored data's)
+    metrics_schema_from_data: Arc<std::sync::atomic::AtomicBool>,
     /// Serialize operations that mutate and query the logical `metrics` table
     metrics_table_query_lock: Arc<Mutex<()>>,
     /// Object-store URL scheme used for chunk URLs.
@@ -89,6 +92,7 @@ impl QueryEngine {
             ctx,
             registered_paths: Arc::new(RwLock::new(HashSet::new())),
             registered_metrics_paths: Arc::new(RwLock::new(BTreeSet::new())),
+            metrics_schema_from_data: Arc::new(std::sync::atomic::AtomicBool::new(false)),
             metrics_table_query_lock: Arc::new(Mutex::new(())),
             object_store_scheme: storage_config.provider.object_store_scheme().to_string(),
             object_store_container: storage_config.container.clone(),
@@ -214,8 +218,17 @@ impl QueryEngine {
         self.ctx.register_table("metrics", Arc::new(table))?;
 
         *self.registered_metrics_paths.write() = normalized_paths;
+        self.metrics_schema_from_data
+            .store(true, std::sync::atomic::Ordering::Release);
 
         Ok(())
+    }
+
+    /// True once `metrics` has been registered over chunk files, i.e. its schema (also the
+    /// schema of the empty table registered for an empty chunk selection) is the data's.
+    pub fn metrics_schema_known(&self) -> bool {
+        self.metrics_schema_from_data
+            .load(std::sync::atomic::Ordering::Acquire)
     }
 
     async fn register_empty_metrics_table(&self) -> Result<()> {
